@@ -656,7 +656,7 @@ package table
 //@   before regattapb.(*Command).MarshalVT assert [C07.nonil] forall j int :: 0 <= j && j < len(m.Batch) ==> m.Batch[j] != nil
 //@   modifies reader.nrec, m.nh.lastRes, m.nh.lastErr, m.nh.lastCmd, m.nh.nelem, m.nh.nseq
 //@   loop 0 invariant cmd != nil && batchCmd != nil && fresh(cmd) && fresh(batchCmd) && cmd != batchCmd && fresh(msg) && len(msg) == 4194304 && estimatedSize >= 0 && !last && backOff != nil
-//@   loop 0 invariant [C07.all.count] reader.nrec - old(reader.nrec) == m.nh.nelem - old(m.nh.nelem) + len(batchCmd.Batch)
+//@   loop 0 invariant [C07.all.count+C18] reader.nrec - old(reader.nrec) == m.nh.nelem - old(m.nh.nelem) + len(batchCmd.Batch)
 //@   loop 0 invariant [C07.nonil] forall j int :: 0 <= j && j < len(batchCmd.Batch) ==> batchCmd.Batch[j] != nil
 //@   loop 0 invariant isNilSlice(batchCmd.Batch) || fresh(batchCmd.Batch)
 // the leader index of the message read last is either pending in the batch command or was carried by
